@@ -597,6 +597,7 @@ func (av *Array) ToKey(b *bytes.Buffer) {
 	for _, e := range av.elements {
 		appendKey(b, e)
 	}
+	b.WriteByte(HkEnd)
 }
 
 func (av *Array) ToString(b io.Writer, s px.FormatContext, g px.RDetect) {
